@@ -180,6 +180,7 @@ CONSTANTS
   WithList = %s
   WithInserts = %s
   WithHist = %s
+  WithRollback = %s
 INVARIANTS %s LocalEffect Convergence
 %sCHECK_DEADLOCK FALSE
 """
@@ -194,13 +195,14 @@ def gen_doc(run, variants):
         inserts = var[4] if len(var) > 4 else True
         keys = var[5] if len(var) > 5 else '"k1"'
         whist = var[6] if len(var) > 6 else False
+        wrb = var[7] if len(var) > 7 else False
         # num = 0: exhaustive search with transition coverage (one behaviour per (state, incoming
         # transition) pair); otherwise random simulation of num traces
         exh = num <= 0
         view = "StateView" if num < 0 else "TransitionView"
         cfg = GEN_DOC_CFG % (reps, depth, keys, "TRUE" if withlist else "FALSE",
                              "TRUE" if inserts else "FALSE", "TRUE" if whist else "FALSE",
-                             "EmitAll" if exh else "Emit",
+                             "TRUE" if wrb else "FALSE", "EmitAll" if exh else "Emit",
                              ("VIEW %s\n" % view) if exh else "")
         behs, r = tlc_behaviours("Doc.tla", cfg, os.path.join(run.work, "gendoc"), {}, num, depth + 1,
                                  run.seed + vi, exhaustive=exh, workers=4 if exh else 1)
@@ -216,6 +218,8 @@ def gen_doc(run, variants):
         total += res["behaviours"]
         run.cov["evaluations"] += res["steps"]
         for b in set(behs):
+            if wrb and '"rolledback"' not in b:
+                continue
             bj = json.loads(b)
             if any(len(reg.get("vals", [])) > 1 for st in bj if "exp" in st for o in st["exp"]
                    for reg in list(o.get("ents", [])) + list(o.get("elems", []))):
@@ -543,8 +547,15 @@ def c28(run):
                        "non-trivial = scenario with a non-empty rolled-back transaction")
     t = os.path.join(run.work, "rollback.ndjson")
     drive(["rollback", run.seed, sizes(run, 200, 4000), t])
+    # spec -> impl: every (state, rolled-back transaction) pair of the bounded Doc.tla model, the
+    # transaction opened on the current state or isolated at any antichain of heads
+    gen_doc(run, [("1, 2", 4 if run.tier == "quick" else 5, False, 0, False, '"k1"', False, True)])
     run.validate("Trace_Graph.tla", ["C28"], t, "rollback")
     count_nontrivial(run, t, has_rollback)
+    t2 = os.path.join(run.work, "rollbackc.ndjson")
+    drive(["rollbackc", run.seed, sizes(run, 200, 4000), t2])
+    run.validate("Trace_Graph.tla", ["C28"], t2, "rollbackc")
+    count_nontrivial(run, t2, has_rollback)
     sample_scenario(run, t, has_rollback)
 
 
@@ -578,9 +589,37 @@ def c06(run):
                        "equal the specification state before the call, in-transaction views must be unchanged, and the "
                        "document must still save and load; non-trivial = scenario with at least one failing call")
     mc_graph(run, "MC_ChangeGraph_quick.cfg" if run.tier == "quick" else "MC_ChangeGraph_thorough.cfg")
-    graph_trace(run, ["C06"], has_err, run.cov["rule"], 100, 3000, family="dup")
+    graph_trace(run, ["C06"], has_err, run.cov["rule"], 50, 3000, family="dup")
     interp_trace(run, ["C06"], "docinv", sizes(run, 100, 2000), has_err, spec="Trace_Seq.tla")
     interp_trace(run, ["C06"], "seq", sizes(run, 100, 2000), has_err, spec="Trace_Seq.tla")
+
+
+def has_diff_pair(sc):
+    return any(e.get('ev') == 'diff' and e.get('patches') for e in sc)
+
+
+def c08(run):
+    run.cov["rule"] = ("histories with conflicts, counters (concurrent increments), deletes, nested objects, lists and text; "
+                       "diff(H1, H2) for random pairs of antichains in both directions incl. the empty heads and the current "
+                       "heads; the TLA+ patch applier (View.tla) applied to the projection at H1 must give the projection at "
+                       "H2 (winners, ids, conflict flags, counter values, list order, text); non-trivial = scenario with a "
+                       "non-empty diff")
+    interp_trace(run, ["C08"], "conflictdiff", sizes(run, 80, 2000), has_diff_pair, spec="Trace_View.tla")
+    interp_trace(run, ["C08"], "diff", sizes(run, 80, 2000), has_diff_pair, spec="Trace_View.tla")
+
+
+def has_remote_patches(sc):
+    return any(e.get('ev') in ('deliver', 'merge') and e.get('patches') for e in sc)
+
+
+def c09(run):
+    run.cov["rule"] = ("every mutating call made through its *_log_patches variant (transactions incl. transaction_at, "
+                       "apply_changes single/batch/out-of-order, load_incremental, merge) on 2-4 replicas with conflicted "
+                       "registers, counters, lists, nested objects, text; the patches of each call are folded over the "
+                       "previous projection by View.tla and must give the new projection; non-trivial = scenario with "
+                       "non-empty patches from a remote delivery")
+    interp_trace(run, ["C09"], "conflictpatch", sizes(run, 150, 3000), has_remote_patches, spec="Trace_View.tla")
+    interp_trace(run, ["C09"], "patch", sizes(run, 100, 2000), has_remote_patches, spec="Trace_View.tla")
 
 
 def replay(run, path):
@@ -605,6 +644,8 @@ REG = {
     "C06": ("model_checking", c06),
     "C28": ("model_checking", c28),
     "C29": ("model_checking", c29),
+    "C08": ("model_checking", c08),
+    "C09": ("model_checking", c09),
     "C11": ("model_checking", c11),
     "C20": ("model_checking", c20),
     "C21": ("model_checking", c21),
